@@ -13,12 +13,174 @@ macro "lexsimp" : tactic => `(tactic|
   simp [nextToken, rules, fixedTable, patternRules, pick, lit, kw, mName, mStr, mDecFloat, mExp, mHexFloat, mDecLit, mHexLit, mOctLit,
     mSpace, mComment, mLineComment, decLitExact, mFrac, omax, isISC, isIC, iscRanges, icRanges, inR, isDec, lowerC, span, isWs, List.isPrefixOf])
 
-/-- every rule with a fixed text lexes in its canonical spelling: `=` before a space is not `==`, `rule` is the keyword
-    and not a name (the earlier rule wins the tie), `/` before a space opens no comment, … -/
-theorem lexes_tk (k : TK) (h : fixedText k ≠ []) : Lexes (tk k) := by
-  cases k <;> first
-    | exact absurd rfl h
-    | exact ⟨rfl, fun rest => by simp only [tk, fixedText, List.cons_append, List.nil_append]; lexsimp⟩
+theorem ws_cases (s : Char) (h : isWs s = true) : s = ' ' ∨ s = '\t' ∨ s = '\r' ∨ s = '\n' := by
+  simp only [isWs, Bool.or_eq_true, beq_iff_eq] at h
+  rcases h with ((h | h) | h) | h <;> simp [h]
 
+theorem lx_comma : Lexes (tk .comma) := ⟨rfl, fun s rest hs => by
+  rcases ws_cases s hs with rfl | rfl | rfl | rfl <;>
+    (simp only [tk, fixedText, List.cons_append, List.nil_append]; lexsimp)⟩
+theorem lx_plus : Lexes (tk .plus) := ⟨rfl, fun s rest hs => by
+  rcases ws_cases s hs with rfl | rfl | rfl | rfl <;>
+    (simp only [tk, fixedText, List.cons_append, List.nil_append]; lexsimp)⟩
+theorem lx_minus : Lexes (tk .minus) := ⟨rfl, fun s rest hs => by
+  rcases ws_cases s hs with rfl | rfl | rfl | rfl <;>
+    (simp only [tk, fixedText, List.cons_append, List.nil_append]; lexsimp)⟩
+theorem lx_div : Lexes (tk .div) := ⟨rfl, fun s rest hs => by
+  rcases ws_cases s hs with rfl | rfl | rfl | rfl <;>
+    (simp only [tk, fixedText, List.cons_append, List.nil_append]; lexsimp)⟩
+theorem lx_mul : Lexes (tk .mul) := ⟨rfl, fun s rest hs => by
+  rcases ws_cases s hs with rfl | rfl | rfl | rfl <;>
+    (simp only [tk, fixedText, List.cons_append, List.nil_append]; lexsimp)⟩
+theorem lx_mod : Lexes (tk .mod) := ⟨rfl, fun s rest hs => by
+  rcases ws_cases s hs with rfl | rfl | rfl | rfl <;>
+    (simp only [tk, fixedText, List.cons_append, List.nil_append]; lexsimp)⟩
+theorem lx_dot : Lexes (tk .dot) := ⟨rfl, fun s rest hs => by
+  rcases ws_cases s hs with rfl | rfl | rfl | rfl <;>
+    (simp only [tk, fixedText, List.cons_append, List.nil_append]; lexsimp)⟩
+theorem lx_semi : Lexes (tk .semi) := ⟨rfl, fun s rest hs => by
+  rcases ws_cases s hs with rfl | rfl | rfl | rfl <;>
+    (simp only [tk, fixedText, List.cons_append, List.nil_append]; lexsimp)⟩
+theorem lx_lbrace : Lexes (tk .lbrace) := ⟨rfl, fun s rest hs => by
+  rcases ws_cases s hs with rfl | rfl | rfl | rfl <;>
+    (simp only [tk, fixedText, List.cons_append, List.nil_append]; lexsimp)⟩
+theorem lx_rbrace : Lexes (tk .rbrace) := ⟨rfl, fun s rest hs => by
+  rcases ws_cases s hs with rfl | rfl | rfl | rfl <;>
+    (simp only [tk, fixedText, List.cons_append, List.nil_append]; lexsimp)⟩
+theorem lx_lparen : Lexes (tk .lparen) := ⟨rfl, fun s rest hs => by
+  rcases ws_cases s hs with rfl | rfl | rfl | rfl <;>
+    (simp only [tk, fixedText, List.cons_append, List.nil_append]; lexsimp)⟩
+theorem lx_rparen : Lexes (tk .rparen) := ⟨rfl, fun s rest hs => by
+  rcases ws_cases s hs with rfl | rfl | rfl | rfl <;>
+    (simp only [tk, fixedText, List.cons_append, List.nil_append]; lexsimp)⟩
+theorem lx_lsq : Lexes (tk .lsq) := ⟨rfl, fun s rest hs => by
+  rcases ws_cases s hs with rfl | rfl | rfl | rfl <;>
+    (simp only [tk, fixedText, List.cons_append, List.nil_append]; lexsimp)⟩
+theorem lx_rsq : Lexes (tk .rsq) := ⟨rfl, fun s rest hs => by
+  rcases ws_cases s hs with rfl | rfl | rfl | rfl <;>
+    (simp only [tk, fixedText, List.cons_append, List.nil_append]; lexsimp)⟩
+theorem lx_kRule : Lexes (tk .kRule) := ⟨rfl, fun s rest hs => by
+  rcases ws_cases s hs with rfl | rfl | rfl | rfl <;>
+    (simp only [tk, fixedText, List.cons_append, List.nil_append]; lexsimp)⟩
+theorem lx_kWhen : Lexes (tk .kWhen) := ⟨rfl, fun s rest hs => by
+  rcases ws_cases s hs with rfl | rfl | rfl | rfl <;>
+    (simp only [tk, fixedText, List.cons_append, List.nil_append]; lexsimp)⟩
+theorem lx_kThen : Lexes (tk .kThen) := ⟨rfl, fun s rest hs => by
+  rcases ws_cases s hs with rfl | rfl | rfl | rfl <;>
+    (simp only [tk, fixedText, List.cons_append, List.nil_append]; lexsimp)⟩
+theorem lx_and : Lexes (tk .and) := ⟨rfl, fun s rest hs => by
+  rcases ws_cases s hs with rfl | rfl | rfl | rfl <;>
+    (simp only [tk, fixedText, List.cons_append, List.nil_append]; lexsimp)⟩
+theorem lx_or : Lexes (tk .or) := ⟨rfl, fun s rest hs => by
+  rcases ws_cases s hs with rfl | rfl | rfl | rfl <;>
+    (simp only [tk, fixedText, List.cons_append, List.nil_append]; lexsimp)⟩
+theorem lx_kTrue : Lexes (tk .kTrue) := ⟨rfl, fun s rest hs => by
+  rcases ws_cases s hs with rfl | rfl | rfl | rfl <;>
+    (simp only [tk, fixedText, List.cons_append, List.nil_append]; lexsimp)⟩
+theorem lx_kFalse : Lexes (tk .kFalse) := ⟨rfl, fun s rest hs => by
+  rcases ws_cases s hs with rfl | rfl | rfl | rfl <;>
+    (simp only [tk, fixedText, List.cons_append, List.nil_append]; lexsimp)⟩
+theorem lx_kNil : Lexes (tk .kNil) := ⟨rfl, fun s rest hs => by
+  rcases ws_cases s hs with rfl | rfl | rfl | rfl <;>
+    (simp only [tk, fixedText, List.cons_append, List.nil_append]; lexsimp)⟩
+theorem lx_bang : Lexes (tk .bang) := ⟨rfl, fun s rest hs => by
+  rcases ws_cases s hs with rfl | rfl | rfl | rfl <;>
+    (simp only [tk, fixedText, List.cons_append, List.nil_append]; lexsimp)⟩
+theorem lx_kSalience : Lexes (tk .kSalience) := ⟨rfl, fun s rest hs => by
+  rcases ws_cases s hs with rfl | rfl | rfl | rfl <;>
+    (simp only [tk, fixedText, List.cons_append, List.nil_append]; lexsimp)⟩
+theorem lx_eqeq : Lexes (tk .eqeq) := ⟨rfl, fun s rest hs => by
+  rcases ws_cases s hs with rfl | rfl | rfl | rfl <;>
+    (simp only [tk, fixedText, List.cons_append, List.nil_append]; lexsimp)⟩
+theorem lx_assign : Lexes (tk .assign) := ⟨rfl, fun s rest hs => by
+  rcases ws_cases s hs with rfl | rfl | rfl | rfl <;>
+    (simp only [tk, fixedText, List.cons_append, List.nil_append]; lexsimp)⟩
+theorem lx_plusAs : Lexes (tk .plusAs) := ⟨rfl, fun s rest hs => by
+  rcases ws_cases s hs with rfl | rfl | rfl | rfl <;>
+    (simp only [tk, fixedText, List.cons_append, List.nil_append]; lexsimp)⟩
+theorem lx_minusAs : Lexes (tk .minusAs) := ⟨rfl, fun s rest hs => by
+  rcases ws_cases s hs with rfl | rfl | rfl | rfl <;>
+    (simp only [tk, fixedText, List.cons_append, List.nil_append]; lexsimp)⟩
+theorem lx_divAs : Lexes (tk .divAs) := ⟨rfl, fun s rest hs => by
+  rcases ws_cases s hs with rfl | rfl | rfl | rfl <;>
+    (simp only [tk, fixedText, List.cons_append, List.nil_append]; lexsimp)⟩
+theorem lx_mulAs : Lexes (tk .mulAs) := ⟨rfl, fun s rest hs => by
+  rcases ws_cases s hs with rfl | rfl | rfl | rfl <;>
+    (simp only [tk, fixedText, List.cons_append, List.nil_append]; lexsimp)⟩
+theorem lx_gt : Lexes (tk .gt) := ⟨rfl, fun s rest hs => by
+  rcases ws_cases s hs with rfl | rfl | rfl | rfl <;>
+    (simp only [tk, fixedText, List.cons_append, List.nil_append]; lexsimp)⟩
+theorem lx_lt : Lexes (tk .lt) := ⟨rfl, fun s rest hs => by
+  rcases ws_cases s hs with rfl | rfl | rfl | rfl <;>
+    (simp only [tk, fixedText, List.cons_append, List.nil_append]; lexsimp)⟩
+theorem lx_gte : Lexes (tk .gte) := ⟨rfl, fun s rest hs => by
+  rcases ws_cases s hs with rfl | rfl | rfl | rfl <;>
+    (simp only [tk, fixedText, List.cons_append, List.nil_append]; lexsimp)⟩
+theorem lx_lte : Lexes (tk .lte) := ⟨rfl, fun s rest hs => by
+  rcases ws_cases s hs with rfl | rfl | rfl | rfl <;>
+    (simp only [tk, fixedText, List.cons_append, List.nil_append]; lexsimp)⟩
+theorem lx_neq : Lexes (tk .neq) := ⟨rfl, fun s rest hs => by
+  rcases ws_cases s hs with rfl | rfl | rfl | rfl <;>
+    (simp only [tk, fixedText, List.cons_append, List.nil_append]; lexsimp)⟩
+theorem lx_bitand : Lexes (tk .bitand) := ⟨rfl, fun s rest hs => by
+  rcases ws_cases s hs with rfl | rfl | rfl | rfl <;>
+    (simp only [tk, fixedText, List.cons_append, List.nil_append]; lexsimp)⟩
+theorem lx_bitor : Lexes (tk .bitor) := ⟨rfl, fun s rest hs => by
+  rcases ws_cases s hs with rfl | rfl | rfl | rfl <;>
+    (simp only [tk, fixedText, List.cons_append, List.nil_append]; lexsimp)⟩
+
+/-- every rule with a fixed text lexes in its canonical spelling before any whitespace character: `=` is not `==`, `rule` is
+    the keyword and not a name (the earlier rule wins the tie), `/` opens no comment, … -/
+theorem lexes_tk : (k : TK) → fixedText k ≠ [] → Lexes (tk k)
+  | .comma, _ => lx_comma
+  | .plus, _ => lx_plus
+  | .minus, _ => lx_minus
+  | .div, _ => lx_div
+  | .mul, _ => lx_mul
+  | .mod, _ => lx_mod
+  | .dot, _ => lx_dot
+  | .semi, _ => lx_semi
+  | .lbrace, _ => lx_lbrace
+  | .rbrace, _ => lx_rbrace
+  | .lparen, _ => lx_lparen
+  | .rparen, _ => lx_rparen
+  | .lsq, _ => lx_lsq
+  | .rsq, _ => lx_rsq
+  | .kRule, _ => lx_kRule
+  | .kWhen, _ => lx_kWhen
+  | .kThen, _ => lx_kThen
+  | .and, _ => lx_and
+  | .or, _ => lx_or
+  | .kTrue, _ => lx_kTrue
+  | .kFalse, _ => lx_kFalse
+  | .kNil, _ => lx_kNil
+  | .bang, _ => lx_bang
+  | .kSalience, _ => lx_kSalience
+  | .eqeq, _ => lx_eqeq
+  | .assign, _ => lx_assign
+  | .plusAs, _ => lx_plusAs
+  | .minusAs, _ => lx_minusAs
+  | .divAs, _ => lx_divAs
+  | .mulAs, _ => lx_mulAs
+  | .gt, _ => lx_gt
+  | .lt, _ => lx_lt
+  | .gte, _ => lx_gte
+  | .lte, _ => lx_lte
+  | .neq, _ => lx_neq
+  | .bitand, _ => lx_bitand
+  | .bitor, _ => lx_bitor
+  | .name, h => absurd rfl h
+  | .dq, h => absurd rfl h
+  | .sq, h => absurd rfl h
+  | .decFloat, h => absurd rfl h
+  | .decExp, h => absurd rfl h
+  | .hexFloat, h => absurd rfl h
+  | .hexExp, h => absurd rfl h
+  | .dec, h => absurd rfl h
+  | .hex, h => absurd rfl h
+  | .oct, h => absurd rfl h
+  | .space, h => absurd rfl h
+  | .comment, h => absurd rfl h
+  | .lineComment, h => absurd rfl h
 
 end Grule.LexFixed
